@@ -53,3 +53,10 @@ func (s *Subscription) VerifC11Ready() bool {
 		item = next
 	}
 }
+
+// VerifC11CachedSnapshot reports whether Subscribe would serve this request from snapCache.
+func (e *EventPublisher) VerifC11CachedSnapshot(req *SubscribeRequest) bool {
+	e.lock.Lock()
+	defer e.lock.Unlock()
+	return e.getCachedSnapshotLocked(req) != nil
+}
